@@ -2,6 +2,9 @@ import Driver.Proto
 import Verif.Spec.C09JsLex
 import Verif.Model.C09JsWriter
 import Verif.Spec.C09JsStr
+import Verif.Model.JsStmt
+import Verif.Proofs.C09JsSep
+import Driver.C01
 /-! driver handlers for property C09, JavaScript slice (ops `spec.c09.js.*`, `model.c09.js.*`) -/
 namespace Verif.Driver.C09Js
 open Verif Verif.Driver Verif.Spec.C09JsLex
@@ -56,8 +59,24 @@ def strokH : Handler := fun args => do
   let b ← argChars args 1
   .ok (boolBytes (Verif.Spec.C09JsStr.strOutOk a b))
 
+/-- `model.c09.js.stmt <ver2020> <prog>` (program encoding of `Driver.C01`) → `[hyp, relex, bytes]`: the tokens of the
+    C01 statement printer model `jsTokens`; `hyp`: they satisfy the four hypotheses of `js_token_sep`; `relex`: the
+    independent lexer reads the written bytes back as exactly these tokens -/
+def stmtH : Handler := fun args => do
+  let v ← argBool args 0
+  let b ← argBytes args 1
+  let prog ← Verif.Driver.C01.parseProg b
+  match Verif.Model.JsStmt.jsTokens { ver2020 := v } prog with
+  | none => .error "unmodelled"
+  | some ts =>
+    let hyp := ts.all Verif.Proofs.C09JsSep.tokOk && Verif.Proofs.C09JsSep.adjChain ts
+      && Verif.Proofs.C09JsSep.headOk ts && Verif.Proofs.C09JsSep.goalsOk {} true ts
+    let out := Verif.Model.JsPrint.emit ts
+    let rl := lex out == some (Verif.Proofs.C09JsSep.lexToks true ts)
+    .ok (listReply [boolBytes hyp, boolBytes rl, charsToBytes out])
+
 def handlers : List (String × Handler) :=
-  [("spec.c09.js.lex", lexH), ("model.c09.js.emit", emitH), ("spec.c09.js.strval", strvalH),
+  [("spec.c09.js.lex", lexH), ("model.c09.js.stmt", stmtH), ("model.c09.js.emit", emitH), ("spec.c09.js.strval", strvalH),
    ("spec.c09.js.strok", strokH)]
 
 end Verif.Driver.C09Js
